@@ -43,7 +43,7 @@ PROP = {
             "statements + 1-3 VACUUM/reopen, randomly interleaved), 800 targeted ones (rolled-back DELETE / INSERT / UPDATE, "
             "committed DELETE and reinsertion, chains of committed UPDATEs, transactions below the horizon open at VACUUM time, "
             "readers open across it, empty tables and double VACUUM, two tables, DROP TABLE, many finished transactions + reopen, "
-            "failing statements), 24 growth cases (12-20 update/VACUUM cycles on 1-250 rows, with reopen) + one of 260 cycles; thorough = 10x, "
+            "failing statements), 24 growth cases (12-20 update/VACUUM cycles on 1-300 rows, with reopen) + one of 260 cycles; thorough = 10x, "
             "cycles up to 60. Non-trivial (`nt`) = the history contains a rolled-back write (ROLLBACK, session drop, "
             "transaction cut off by VACUUM/reopen) or a superseded version (committed UPDATE or DELETE) before some VACUUM; "
             "every growth case is non-trivial; distinct = distinct case line. Tags `clean` / `kf:<feature>` give the split.",
@@ -57,14 +57,15 @@ PROP = {
     "partial": "vacuum_idempotent_partial: observations are idempotent, a second VACUUM drops no row, never stores more, and leaves exactly "
                "one version per row and no mark, after which the size is a fixed point; the design's `size (vacuum (vacuum db)) = size (vacuum db)` "
                "is kept as vacuum_idempotent_statement and is FALSE of the code-mirroring model (vacuum_size_not_idempotent_witness: vaccum_with "
-               "keeps the deltas whose xmin equals the horizon). bounded_growth is proved for cycles of ONE autocommit statement (any statement, "
-               "failing ones included) followed by VACUUM, any number of cycles, starting after any history + one VACUUM: size = number of rows; "
-               "for arbitrary work between two VACUUMs a bound by a function of the row count alone (bounded_growth_statement) does not hold for a "
-               "single VACUUM and is not claimed; the general bound size_after_vacuum_le (rows + versions the last committed transaction stacked "
-               "below the heads) and no_chain_survives are proved instead. forget_aborted_unobservable is proved for the transaction beginning right "
-               "after the VACUUM, not as a simulation for all later histories (the relabelled table breaks the invariant the simulation uses). "
-               "vacuum_removes_only_unneeded is stated for the snapshot of every transaction that begins after the VACUUM and after any further "
-               "history; snapshots of sessions open across the VACUUM do not exist in the specification (vacuum_ends_open_sessions).",
+               "keeps the deltas whose xmin equals the horizon and the newest version older than it). bounded_growth is proved for cycles of ONE "
+               "autocommit statement (any statement, failing ones included) followed by VACUUM, any number of cycles, starting after any history + "
+               "one VACUUM: rows <= size <= 2 * rows; for arbitrary work between two VACUUMs a bound by a function of the row count alone "
+               "(bounded_growth_statement) does not hold for a single VACUUM and is not claimed; the general bound size_after_vacuum_le (one version "
+               "per row + the versions written by the last committed transaction) and no_chain_survives (at most one version older than the horizon "
+               "per row) are proved instead. forget_aborted_unobservable is proved for the transaction beginning right after the VACUUM, not as a "
+               "simulation for all later histories (the relabelled table breaks the invariant the simulation uses). vacuum_removes_only_unneeded is "
+               "stated for the snapshot of every transaction that begins after the VACUUM and after any further history; snapshots of sessions open "
+               "across the VACUUM do not exist in the specification (vacuum_ends_open_sessions).",
     "trusted": ["one history is executed from a single thread: the interleaving is exactly the op order of the case line",
                 "Driver/Vacuum.lean's bookkeeping for the side table tmpzz and for the `killed` session names (unverified glue, 40 lines)"],
 }
@@ -75,7 +76,7 @@ TEXT = {
             "deleters, deltas below the horizon, forget old transactions) produces exactly the outputs of the abstract snapshot-isolation "
             "machine in which VACUUM only ends the open transactions — hence the same outputs as the history with every VACUUM replaced by "
             "'abort everything'; every dropped version or row is selected by no snapshot that can exist afterwards; VACUUM is idempotent on "
-            "observations; repeated update/VACUUM cycles keep exactly one version per row. Tied to the code by ~1 700 (quick) / ~17 000 "
+            "observations; repeated update/VACUUM cycles keep at most two versions per row. Tied to the code by ~1 700 (quick) / ~17 000 "
             "(thorough) generated histories through the public API, incl. all-table SELECTs before/after every checked VACUUM and file "
             "size over update/VACUUM cycles.",
     "design_ref": "DESIGN.md §5 C13",
@@ -84,7 +85,7 @@ TEXT = {
             "snapshot under an aborted id, and because the coordinator forgets aborted transactions below the horizon their later "
             "writes became visible to everybody without a commit. Remaining findings: updateKeepsInserterXmin (C03/C04, exact "
             "attribution) and non-transactional DROP TABLE making VACUUM fail after a rolled-back DROP (C15, region attribution); "
-            "latent: vacuumDropsHorizonVersion (masked by updateKeepsInserterXmin). Partial: size idempotence only from the second "
-            "VACUUM on; bounded_growth for one statement per cycle.",
+            "latent: vacuumDropsHorizonVersion (masked by updateKeepsInserterXmin); the u8 version counter that ended update/VACUUM cycles at 255 was repaired on main (02a6d5d). Partial: size idempotence only from the second "
+            "VACUUM on; bounded_growth (size <= 2 * rows) for one statement per cycle.",
     "technique": "Lean 4 refinement proof (VACUUM preserves the simulation relation of C04) + differential correspondence with the real Database::vacuum",
 }
